@@ -113,18 +113,14 @@ func (n *NameTrie[V]) Delete() {
 // DeleteIf deletes the node and its ancestors if they are empty.
 // Whether empty or not is defined by a given function.
 func (n *NameTrie[V]) DeleteIf(pred func(V) bool) {
-	if !pred(n.val) {
+	// A node that still has children is on the path to other entries and must stay
+	if !pred(n.val) || len(n.chd) > 0 {
 		return
 	}
-	if n.par != nil {
-		n.chd = nil
+	// Only unlink a node that is still its parent's child (stale references may outlive a node)
+	if n.par != nil && n.par.chd[n.key] == n {
 		delete(n.par.chd, n.key)
-		if len(n.par.chd) == 0 {
-			n.par.DeleteIf(pred)
-		}
-	} else {
-		// Root node cannot be deleted.
-		n.chd = map[string]*NameTrie[V]{}
+		n.par.DeleteIf(pred)
 	}
 }
 
